@@ -234,14 +234,16 @@ def long_seq(draw):
     start = draw(st.integers(0, 7))
     exp = start
     seq = []
-    choice = draw(st.lists(st.tuples(st.integers(0, 99), st.integers(0, len(SYMS) - 1), st.integers(0, 3)), min_size=n, max_size=n))
-    for p, j, v in choice:
+    choice = draw(st.lists(st.tuples(st.integers(0, 99), st.integers(0, len(SYMS) - 1), st.integers(0, 3), st.integers(0, 255)), min_size=n, max_size=n))
+    for p, j, v, code in choice:
         if p < 70:
             sym = ("D", exp, v & 1, 5 if v & 2 else 0)
         elif p < 80:  # duplicate of the previous frame / retransmitted future frame
             sym = ("D", (exp - 1 + (v & 2)) % 8, 1 if v & 1 else 0, 0)
         else:
             sym = SYMS[j]
+            if sym[0] in ("K", "E") and v & 1:
+                sym = (sym[0], code)  # any code byte is a well-formed frame, named or not, zero included
         if sym[0] == "D" and sym[1] == exp:
             exp = (exp + 1) % 8
         elif sym[0] == "K":
@@ -272,6 +274,8 @@ def run(ctx):
         })
         ctx.search(strat, check, max_examples=30000)
 
+    ctx.parallel(_worker_codes, list(range(8)))
+    ctx.exhaustive["all 256 RSTACK and ERROR codes, alone and followed by a DATA frame, one read or two"] = True
     ctx.parallel(_worker_pairs, list(range(8)))
     ctx.exhaustive["every ordered pair of frames arriving in one read, from 8 start states"] = True
     if quick:
@@ -293,6 +297,18 @@ def merged_seq(draw):
 def _worker_long(c, n):
     c.search(long_seq(), check, max_examples=n)
     c.search(merged_seq(), check_merged, max_examples=n)
+
+
+def _worker_codes(c, start):
+    """every code byte in RSTACK and ERROR (zero and unnamed ones included): reported upward as is, exactly once"""
+    for code in range(256):
+        for kind in ("K", "E"):
+            follow = ["D", 0 if kind == "K" else start, 0, 0]
+            plan = {"start": start, "seq": [[kind, code], follow]}
+            c.check(plan, check(plan), sample=(code == 0 and start == 1))
+            if code % 8 == start:
+                plan = {"start": start, "seq": [[kind, code], follow], "cuts": []}
+                c.check(plan, check_merged(plan), sample=False)
 
 
 def _worker_pairs(c, start):
